@@ -333,6 +333,26 @@ CLAIMED["C16"]["text"] += (" Histories of 2-4 contexts on the SAME Gateway and t
 CLAIMED["C17"]["text"] += (" Concurrent writers on a writer whose drain the harness gates, with disconnect / connection loss at every point: every write sends its whole "
                            "line in call order or raises a TransportError.")
 
+CLAIMED["C01"]["text"] += (" Lines arriving at gateways in rich states (held commands released at a wake, reboot-flagged nodes, stored values) must be yielded "
+                           "with exactly the values they spell.")
+CLAIMED["C02"]["text"] += (" Decoding is re-checked after blocks of other activity of the library in the same process (persistence sessions, schema objects, several gateways).")
+CLAIMED["C05"]["text"] += (" Two to four Gateway objects alive in one process, each with its own reports, are judged per gateway.")
+CLAIMED["C07"]["text"] += (" Held commands of 186 payload kinds must be written at the wake byte for byte as an awake twin writes them; Lean: held_until_wake "
+                           "(any history without the destination's own wake signal keeps the held command) and non_wake_keeps_sbuf.")
+CLAIMED["C08"]["text"] += (" Lean, history level: nothing_lost (after ANY history of receives and sends for other keys, under ANY schedule of failing and "
+                           "cancelled writes, a held command is still held or was written successfully at some step), via a traversal whose primitive is "
+                           "'write the entry, then remove it' (Lemmas/RelW.lean).")
+CLAIMED["C09"]["text"] += (" Reconnects (the link drops, the same Gateway object is entered again) are schedule steps of the interleaving engine.")
+CLAIMED["C11"]["text"] += (" Lean: load_keeps_registered_ids and never_handed_out_twice_life (traffic interleaved with loads of arbitrary files).")
+CLAIMED["C12"]["text"] += (" Lean: held_released_at_next_wake; scale scenarios with up to 20 000 keys held at once.")
+CLAIMED["C13"]["text"] += (" Sessions left while a scheduled save is held at each of its file operations (real aiofiles and thread pool); a genuine race of the "
+                           "unchanged library found there is a recorded known finding (class cancelled-save-unclosed-file, DESIGN 13 F17).")
+CLAIMED["C16"]["text"] += (" For every built-in transport kind, leaving with messages received but not read must complete, disconnect and save.")
+CLAIMED["C17"]["text"] += (" Connects whose open function hangs for any stretch of virtual time, fails with any OSError-family class, or is cancelled.")
+CLAIMED["C19"]["text"] += (" The whole grid child type x value type of the older protocol's tables is run in the paired histories.")
+CLAIMED["C16"]["note"] += (" Known finding F17 (an executor thread outliving its cancelled coroutine: the cancelled save's unclosed file object is flushed over the final "
+                           "save) is exactly this unmodelled runtime behaviour; it is exercised and recorded under C13.")
+
 PENDING_REASON = "check not built yet in this round (model and theorems in progress); see DESIGN.md section 7"
 
 checks = []
@@ -369,7 +389,8 @@ manifest = {
     ],
     "checks": checks,
     "notes": "All properties are decided by machine-checked proof in Lean 4 about a model tied to the code (DESIGN.md sections 2-5). "
-             "Sixteen genuine defects were repaired in /repo by 17 'fix:' commits, two of them (F15, F16) found by this framework (known-findings.txt); C15's defect is a recorded known finding.",
+             "Sixteen genuine defects were repaired in /repo by 17 'fix:' commits, two of them (F15, F16) found by this framework (known-findings.txt); two genuine defects are recorded "
+             "known findings: C15's truncating save (F11) and the cancelled-save/unclosed-file race (F17, found by this framework; property=C13 in known-findings.txt, C16's clause).",
     "not_applicable": [{"property_id": pid, "reason": PENDING_REASON} for pid in sorted(props) if pid not in CLAIMED],
 }
 with open(os.path.join(HERE, "MANIFEST.json"), "w") as f:
